@@ -22,9 +22,6 @@ package didsubject
 //@ func (orm.DidDocument).ToDIDDocument
 //@   trusted
 //@   benign
-//@ func resolver.IsDeactivated
-//@   trusted
-//@   pure heap
 //@ func time.Unix
 //@   trusted
 //@   benign
